@@ -11,6 +11,7 @@
            ASan+UBSan build of the back end; any exception outside {ffi.error, TypeError, ValueError}, any crash or
            sanitizer report is a violation
 """
+import json
 import os
 import re
 
@@ -253,6 +254,101 @@ def gen_ctype(ctx):
     return out
 
 
+# ----------------------------------------------------------------------------- compiled-FFI API stream (ffi_obj.c / lib_obj.c)
+
+SPECIALS = ["\udc80", "\ud800", "\udfff", "\udbff", "\udc00\ud800", "\ude00\ud83d", "\ud83d\ude00", "\ud800\ud800",
+            "\0", "\0\0", "\U0001F600", "\U00010000", "\U0010FFFF", "\u20ac", "\xe9", "\xff", "\x80", "\ufeff", "\u2028",
+            "\ufffe", "\uffff", "\x7f", "\x01"]
+TYPE_APIS = ["typeof", "new", "cast", "sizeof", "alignof", "getctype", "getctype2", "offsetof", "callback", "from_buffer"]
+NAME_APIS = ["libattr", "libhas", "integer_const", "addressof", "offsetof2", "offsetof3"]
+LIB_NAMES = ["C30_CONST", "c30_k", "c30_fn", "c30_var", "AA", "BB", "nosuch", "__all__", "__dict__", "__name__", "a", "b", ""]
+SMALL_TYPES = ["int", "char *", "int[3]", "int(*)(int)", "void(*)(int, ...)", "struct foo_s", "struct foo_s *", "foo_t", "foo_t[2]",
+               "enum e1", "union u1 *", "fn_t", "uint8[16]", "size_t", "long double", "wchar_t *", "struct opaque *", "char16_t",
+               "int[]", "char[]", "void *", "void"]
+STR_FORMS = ["str", "str", "str", "sub", "evil"]
+BYTES_FORMS = ["bytes", "bytes", "bytessub", "bytearray", "memoryview"]
+
+
+def capi_text(c):
+    return "".join(s * n for s, n in c["parts"])
+
+
+def capi_label(c):
+    t = capi_text(c) if sum(len(s) * n for s, n in c["parts"]) < 300 else None
+    return "%s(%s%s)" % (c["api"], ascii(t) if t is not None else "<%s>" % " + ".join("%s*%d" % (ascii(s), n) for s, n in c["parts"]),
+                         "" if c["form"] == "str" else " as %s" % c["form"])
+
+
+def gen_capi(ctx):
+    """strings that _ffi_type()/lib_getattr() must convert before any parsing happens: text that cannot be encoded as
+    UTF-8 (lone surrogates: high, low, reversed pairs), embedded NULs, non-BMP and other non-ASCII characters, very long
+    strings, bytes-like objects and str subclasses, through every entry point of a compiled FFI that takes a type string
+    or a name"""
+    rng, out, seen = ctx.rng, [], set()
+
+    def add(api, parts, form, ffi, enc=None):
+        parts = [[s, n] for s, n in parts if s and n]
+        key = (api, json.dumps(parts), form, ffi, enc)
+        if key in seen:
+            return
+        seen.add(key)
+        c = dict(kind="capi", api=api, parts=parts, form=form, ffi=ffi)
+        if enc:
+            c["enc"] = enc
+        out.append(c)
+
+    # directed: every special alone, before, after and inside a valid type, for every API, as str; bare and compiled ffi
+    for api in TYPE_APIS:
+        for sp in SPECIALS:
+            for base in ("", "int", "foo_t"):
+                ffi = 1 if "foo" in base else rng.randrange(2)
+                for parts in ([(sp, 1), (base, 1)], [(base, 1), (sp, 1)], [(base[:2], 1), (sp, 1), (base[2:], 1)]):
+                    add(api, parts, rng.choice(STR_FORMS) if rng.random() < 0.3 else "str", ffi)
+                    if not base:
+                        break
+    for api in NAME_APIS:
+        for sp in SPECIALS:
+            for base in ("", "c30_fn", "C30_CONST", "a"):
+                for parts in ([(sp, 1), (base, 1)], [(base, 1), (sp, 1)]):
+                    add(api, parts, rng.choice(STR_FORMS) if rng.random() < 0.3 else "str", 1)
+    # the defect's witness, literally
+    add("typeof", [("\udc80", 1)], "str", 0)
+    # random: base type/name with 1-3 specials inserted anywhere, in every form
+    for _ in range(ctx.n(1500, 30000)):
+        if rng.random() < 0.7:
+            api, base = rng.choice(TYPE_APIS), rng.choice(SMALL_TYPES)
+        else:
+            api, base = rng.choice(NAME_APIS), rng.choice(LIB_NAMES)
+        t = list(base)
+        for _ in range(rng.choice([0, 1, 1, 1, 2, 3])):
+            t.insert(rng.randrange(len(t) + 1), rng.choice(SPECIALS))
+        text = "".join(t)
+        k = rng.random()
+        if k < 0.6:
+            add(api, [(text, 1)], rng.choice(STR_FORMS), 1 if needs_tables(base) else rng.randrange(2))
+        else:
+            enc = rng.choice(["utf-8", "utf-8", "latin-1", "utf-16-le", "utf-32"])
+            try:
+                text.encode(enc, "surrogatepass")
+            except UnicodeError:
+                enc = "utf-8"
+            add(api, [(text, 1)], rng.choice(BYTES_FORMS), 1 if needs_tables(base) else rng.randrange(2), enc)
+    # very long strings (the parser's input is never copied into a fixed buffer; the error message is truncated)
+    for n in (1000, 70000, 1100000):
+        for api in ("typeof", "sizeof", "cast", "getctype", "getctype2", "libattr", "integer_const", "offsetof2", "callback"):
+            ffi = 1
+            add(api, [("int", 1), (" ", n)], "str", ffi)
+            add(api, [("x", n)], "str", ffi)
+            add(api, [("\xe9", n)], "str", ffi)
+            add(api, [("int ", 1), ("\U0001F600", n)], "str", ffi)
+            add(api, [("x", n), ("\udc80", 1)], "str", ffi)
+            add(api, [("\udc80", n)], "str", ffi)
+            add(api, [("int", 1), ("\0", n)], "str", ffi)
+            add(api, [("y", n)], "bytes", ffi, "latin-1")
+            add(api, [("foo_t", 1), ("\t\n", n)], "sub", ffi)
+    return out
+
+
 def complexity_limit():
     """FFI_COMPLEXITY_OUTPUT of src/c/ffi_obj.c (size of the opcode array handed to parse_c_type); fail closed to 1200"""
     try:
@@ -331,7 +427,7 @@ def generate(ctx):
         e = gen_bad_expr(rng, rng.choice([0, 1, 1, 2, 2, 3, 4, 5]))
         if shift_ok(e):
             cases.append(dict(kind="expr", e=e))
-    return cases + gen_macros(ctx) + gen_fuzz(ctx) + gen_ctype(ctx) + gen_complexity(ctx)
+    return cases + gen_macros(ctx) + gen_fuzz(ctx) + gen_ctype(ctx) + gen_complexity(ctx) + gen_capi(ctx)
 
 
 # ----------------------------------------------------------------------------- verdicts
@@ -450,6 +546,83 @@ def run_malloc_debug(ctx, s, cases):
         todo = todo[i + 1:]
 
 
+def ctype_label(c):
+    return capi_label(c) if c["kind"] == "capi" else "typeof(%r%s)" % (
+        c["text"][:300], " ... [%d chars]" % len(c["text"]) if len(c["text"]) > 300 else "")
+
+
+def run_isolating(ctx, s, cases, env, progress, what):
+    """run the ctype worker over `cases`; when the process dies, the input it was working on (progress file) is re-run
+    ALONE in a fresh process: if that dies as well the death is attributed to this single input (violation, the input
+    is the replay); then the rest of the batch is run.  Returns (results aligned with cases, None where the process
+    died; concatenated stderr)."""
+    results, errs, base = [None] * len(cases), [], 0
+    for attempt in range(12):
+        todo = cases[base:]
+        if not todo:
+            break
+        out, p = s.run_worker("c30_worker.py", dict(op="ctype", cases=todo, progress=progress, markers=True, base=base),
+                              timeout=3000, extra_env=env)
+        errs.append(p.stderr or "")
+        if out is not None and isinstance(out["results"], list):
+            results[base:] = out["results"]
+            break
+        if out is not None:
+            ctx.violation(todo[0], "%s: worker setup failed: %r" % (what, out["results"]))
+            break
+        try:
+            i = int(open(progress).read().strip() or 0)
+        except (OSError, ValueError):
+            i = 0
+        i = min(i, len(todo) - 1)
+        # every input before i completed but its result was lost with the process: re-run that prefix (it did not kill)
+        if i:
+            out0, p0 = s.run_worker("c30_worker.py", dict(op="ctype", cases=todo[:i], progress=progress + ".pre", markers=True,
+                                                          base=base), timeout=3000, extra_env=env)
+            if out0 is not None and isinstance(out0["results"], list):
+                results[base:base + i] = out0["results"]
+                errs.append(p0.stderr or "")
+        out1, p1 = s.run_worker("c30_worker.py", dict(op="ctype", cases=[todo[i]], progress=progress + ".iso", markers=False),
+                                timeout=600, extra_env=env)
+        alone = out1 is None or not isinstance(out1["results"], list)
+        ctx.hist("process_death", "confirmed in isolation" if alone else "only inside the batch")
+        tail = ((p1.stderr if alone else p.stderr) or "")[-1800:]
+        ctx.violation(todo[i], "%s: %s: the interpreter died (rc=%s%s)\n%s" % (
+            what, ctype_label(todo[i]), p1.returncode if alone else p.returncode,
+            "; reproduced with this input alone in a fresh process" if alone else
+            "; NOT reproduced with this input alone: depends on the inputs before it in the batch", tail),
+            key=None)
+        base += i + 1
+    return results, "\n".join(errs)
+
+
+def capi_verdict(c, r):
+    """None if acceptable, else (description, key).  The property's predicate for every entry point of a compiled FFI
+    that takes a type string: a result, ffi.error, TypeError or ValueError (UnicodeEncodeError is a ValueError).  Name
+    look-ups (lib attributes, integer_const, addressof(lib, name)) report a missing name as AttributeError, offsetof()
+    reports a missing field as KeyError: documented behaviour of those entry points."""
+    exc = r["exc"]
+    if exc is None or exc in ALLOWED_C:
+        return None
+    if exc == "AttributeError" and c["api"] in ("libattr", "libhas", "integer_const", "addressof"):
+        return None
+    if exc == "KeyError" and c["api"] in ("offsetof", "offsetof2", "offsetof3"):
+        return None
+    key = ctype_key(r)
+    if (exc == "SystemError" and c["api"] in ("libattr", "libhas") and "returned a result with an exception set" in (r.get("msg") or "")
+            and not utf8_ok(capi_text(c))):
+        key = "lib_getattr_unencodable_name"
+    return "%s on a compiled FFI raises %s: %s" % (capi_label(c), r.get("cls") or exc, r.get("msg")), key
+
+
+def utf8_ok(t):
+    try:
+        t.encode("utf-8")
+        return True
+    except UnicodeError:
+        return False
+
+
 def run_ctypes(ctx, ctypes):
     s = ctx.scratch()
     d = recover_build(s)
@@ -460,25 +633,29 @@ def run_ctypes(ctx, ctypes):
            "ASAN_OPTIONS": "detect_leaks=0:halt_on_error=0:exitcode=0:allocator_may_return_null=1",
            "UBSAN_OPTIONS": "print_stacktrace=1:halt_on_error=0"}
     progress = os.path.join(s.work, "c30_progress")
-    out, p = s.run_worker("c30_worker.py", dict(op="ctype", cases=ctypes, progress=progress, markers=True),
-                          timeout=3000, extra_env=env)
-    if out is None or not isinstance(out["results"], list):
-        try:
-            i = int(open(progress).read().strip() or 0)
-        except (OSError, ValueError):
-            i = 0
-        ctx.violation(ctypes[min(i, len(ctypes) - 1)], "typeof(%r) on a compiled FFI: process died rc=%s\n%s" % (
-            ctypes[min(i, len(ctypes) - 1)]["text"][:300], p.returncode, ((out or {}).get("results") or p.stderr[-2500:])))
-        return
+    results, stderr = run_isolating(ctx, s, ctypes, env, progress, "compiled FFI under ASan+UBSan")
     # sanitizer reports, attributed by the '@@C30 i' markers the worker writes to stderr before each input
     reports, cur = {}, None
-    for line in (p.stderr or "").splitlines():
+    for line in stderr.splitlines():
         if line.startswith("@@C30 "):
             cur = int(line[6:])
         elif cur is not None and line.strip():
             reports.setdefault(cur, []).append(line)
-    for c, r in zip(ctypes, out["results"]):
+    for c, r in zip(ctypes, results):
+        if r is None:
+            continue
         ctx.count()
+        if c["kind"] == "capi":
+            t = capi_text(c)
+            ctx.hist("capi_outcome", "%s:%s" % (c["api"], r.get("cls") or "ok"))
+            ctx.hist("capi_input", ("not UTF-8 encodable" if not utf8_ok(t) else "embedded NUL" if "\0" in t else
+                                    "non-BMP" if any(ord(ch) > 0xffff for ch in t) else "very long" if len(t) >= 1000 else
+                                    "non-ASCII" if any(ord(ch) > 127 for ch in t) else "ascii") + "/" + c["form"])
+            ctx.nontrivial(("capi", c["api"], c["form"], t[:64], len(t)))
+            bad = capi_verdict(c, r)
+            if bad:
+                ctx.violation(c, bad[0], key=bad[1])
+            continue
         ctx.hist("ctype_outcome", r["exc"] or "ok")
         if r["exc"] is None:
             if c["text"].strip() not in TYPES:
@@ -491,22 +668,21 @@ def run_ctypes(ctx, ctypes):
     run_malloc_debug(ctx, s, [c for c in ctypes if c.get("limit")])
     for i, lines in sorted(reports.items()):
         rep = "\n".join(lines)
-        if "runtime error" in rep or "AddressSanitizer" in rep:
-            ctx.hist("sanitizer_reports", classify_report(rep, ctypes[i]) or "unknown")
-            ctx.violation(ctypes[i], "typeof(%r%s) on a compiled FFI: sanitizer report\n%s" % (
-                ctypes[i]["text"][:300], " ... [%d chars]" % len(ctypes[i]["text"]) if len(ctypes[i]["text"]) > 300 else "", rep[:1500]),
-                          key=classify_report(rep, ctypes[i]))
+        if ("runtime error" in rep or "AddressSanitizer" in rep) and i < len(ctypes) and results[i] is not None:
+            key = classify_report(rep, ctypes[i]) if ctypes[i]["kind"] == "ctype" else None
+            ctx.hist("sanitizer_reports", key or "unknown")
+            ctx.violation(ctypes[i], "%s on a compiled FFI: sanitizer report\n%s" % (ctype_label(ctypes[i]), rep[:1500]), key=key)
 
 
 def label(c):
-    return c_text(c["e"]) if c["kind"] == "expr" else c["text"]
+    return c_text(c["e"]) if c["kind"] == "expr" else capi_label(c) if c["kind"] == "capi" else c["text"]
 
 
 def evaluate(ctx, cases):
     exprs = [c for c in cases if c["kind"] == "expr"]
     macros = [c for c in cases if c["kind"] == "macro"]
     fuzz = [c for c in cases if c["kind"] == "fuzz"]
-    ctypes = [c for c in cases if c["kind"] == "ctype"]
+    ctypes = [c for c in cases if c["kind"] in ("ctype", "capi")]
     codes = {"CDefError": 1, "FFIError": 2, "ZeroDivisionError": 3, "ValueError": 4, "IndexError": 5, "KeyError": 6,
              "MemoryError": 7, "TypeError": 8}
     pairs, owner = [], []
@@ -574,7 +750,7 @@ def evaluate(ctx, cases):
                     "C30.Model.r_int_literal/process_macro vs cparser._r_int_literal/_process_macros")
     if ctypes:
         run_ctypes(ctx, ctypes)
-    for c in (exprs[:1] + macros[:1] + fuzz[15:17] + ctypes[:2]):
+    for c in (exprs[:1] + macros[:1] + fuzz[15:17] + ctypes[:2] + [c for c in ctypes if c["kind"] == "capi"][:2]):
         ctx.sample(c if c["kind"] != "expr" else dict(kind="expr", text=c_text(c["e"])))
 
 
